@@ -445,18 +445,18 @@ def c13_cases(tier, rng):
 
 
 RULES = {
-    "C12": "simple graphs: S(5,6) lists with >= 5 edges (TLC-generated, sampled in quick), random simple graphs of 6-30 nodes, complete bipartite graphs, and twisted ladders with 66-130 layers (layer indices >= 64) x both layerers x size-aware positioners x Polyline, with a recording monitor; TLC recounts the crossings of the returned drawing per pair of adjacent bands (strict inversions of segment end points) and compares with the sum of the reported 'crossings' events; judged when every polyline has one point per band it touches; non-trivial = reported count > 0",
+    "C12": "simple graphs: S(5,6) lists with >= 5 edges (TLC-generated, sampled in quick), random simple graphs of 6-30 nodes, complete bipartite graphs, and twisted ladders with 66-130 layers (layer indices >= 64) x both layerers x size-aware positioners x Polyline, with a recording monitor, rings and sparse bipartite graphs with 24-70 nodes per layer (wide layers), and 4000/30000 small simple graphs under the network-simplex positioner with thoroughness 1-3 (pivot budget exhausted); TLC recounts the crossings of the returned drawing per pair of adjacent bands (strict inversions of segment end points) and compares with the sum of the reported 'crossings' events; judged when every polyline has one point per band it touches; non-trivial = reported count > 0",
     "C13": "every rooted tree on 4-6 nodes (parent functions) in both orientations and every edge order (TLC-generated T4,T5,T6, canonical form), random recursive trees of 7-60 nodes with shuffled edge lists, caterpillars, complete binary trees, spiders and brooms of 8-17 nodes (85 branch profiles x orientation x 4/20 edge orders, half of them with the network-simplex positioner) x both breakers x both layerers x size-aware positioners x Polyline; TLC counts the crossings of the drawing; non-trivial = a node of degree >= 3 and n >= 4",
     "C01": "E(4,4)/E(4,5) x 3-4 random points of the full option grid (3 breakers incl. seeded random greedy x 2 layerers x 9 positioners x 5 routers x 5 size modes x 4 size patterns x NodeSpacing/LayerSpacing {0,1,10} x thoroughness {0,1,default} x virtual-node output x node-ID alphabets {plain, helper-like V<k>/NE<k>, empty/300-char/Unicode/control}), random multigraphs of 5-40 nodes, and size sweeps (chains up to 1000/3000 nodes, ladders with 66-130 layers, bipartite, grid, binary trees, random graphs up to 90/150 nodes); each case runs in an isolated worker with a wall-clock budget equal to the spec's BudgetMs and a heap budget; non-trivial = >= 2 nodes and a non-loop edge",
-    "C10": "E(4,4)/E(4,5), 5-node simple lists of S(5,6), random connected DAGs (5-12 nodes), random multigraphs (6-40 nodes), complete bipartite and grid DAGs x both breakers x NetworkSimplex x thoroughness {default,1,4}; the optimum is MinTotalSpan (brute force in TLC) for n <= 5 and an LP-duality certificate checked in TLC (CertOK) beyond; runs that ended on the iteration cap (hook) are not judged; non-trivial = at least one pivot executed",
-    "C11": "E(4,4)/E(4,5) x both breakers x LongestPath x two positioners, plus random multigraphs and random connected DAGs up to 30 nodes; band-from-bottom of every node compared by TLC with the longest path to a sink (GraphOps!HeightToSink) in the drawn orientation; non-trivial = a component with >= 3 nodes and >= 2 bands",
-    "C02": "inputs: every canonical multigraph edge list of E(4,4) (quick) / E(4,5) (thorough) generated by TLC from Inputs.tla x rotating option grid (breakers x layerers x positioners x routers x size options x virtual-node output), plus seeded random multigraphs of 4-14 nodes; distinct by canonical list x options; non-trivial = input has a cycle, a self-loop, a parallel/antiparallel pair, or a routed edge with bends",
-    "C03": "E(4,4)/E(4,5) x breakers x layerers x 5 positioners x heterogeneous heights x LayerSpacing {1,10}, plus random multigraphs and random connected DAGs up to 30 nodes; non-trivial = some component has >= 2 bands",
-    "C04": "E(4,4)/E(4,5) x breakers x layerers x the four size-aware positioners x four width/height patterns (zero sizes, one very wide node, odd widths) x NodeSpacing {0,1,10}, plus random multigraphs up to 30 nodes, plus structured families (block staircases of 2-8/12 stages in both edge orders, ladders, caterpillars, binary trees, grids, complete bipartite graphs) x both layerers x the four positioners x size modes x NodeSpacing {0,2,10}; non-trivial = >= 2 components or two nodes in one band",
-    "C05": "E(4,4)/E(4,5) x all positioners (incl. the four forced B&K layouts) x {straight, polyline, ortho} x size patterns, plus random multigraphs up to 20 nodes, plus the spline router on 500 (thorough: 3000) lists of E(4,4) with several components or parallel/antiparallel pairs (uniform sizes; its process aborts are C01's known findings); non-trivial = a reversed edge, a long edge or >= 2 components",
-    "C06": "E(4,4)/E(4,5) x size-aware positioners x {straight, polyline, ortho} x heterogeneous widths AND heights x virtual-node output, plus random multigraphs up to 20 nodes; non-trivial = a routed edge with more than two points",
-    "C14": "every cyclic list of E(4,4)/E(4,5) x DepthFirst and every acyclic list x {Greedy, DepthFirst}, x both layerers, 5-node cyclic lists of E(5,5) (5000 sampled in quick, all 5-node ones in thorough), plus random multigraphs of 5-9 and up to 30 nodes; non-trivial = >= 1 reversed edge or a parallel/antiparallel pair",
-    "C16": "every connected list of E(4,4)/E(4,5) x {VAlign, PackRight} x width patterns x NodeSpacing {0,1,10} with helper nodes in the output, plus random connected multigraphs up to 30 nodes; non-trivial = >= 2 bands and a band with >= 2 nodes",
+    "C10": "E(4,4)/E(4,5), 5-node simple lists of S(5,6), random connected DAGs (5-12 nodes), random multigraphs (6-40 nodes), complete bipartite and grid DAGs x both breakers x NetworkSimplex x thoroughness {default,1,4} (every family rotates through positioners, routers, the output option and a forced B&K layout with other positioners); the optimum is MinTotalSpan (brute force in TLC) for n <= 5 and an LP-duality certificate checked in TLC (CertOK) beyond; runs that ended on the iteration cap (hook) are not judged; non-trivial = at least one pivot executed",
+    "C11": "E(4,4)/E(4,5) x both breakers x LongestPath x two positioners, plus random multigraphs and random connected DAGs up to 30 nodes (rotating through positioners, routers, output option), cycle breakers incl. DepthFirst combined with the greedy node-choice option; band-from-bottom of every node compared by TLC with the longest path to a sink (GraphOps!HeightToSink) in the drawn orientation; non-trivial = a component with >= 3 nodes and >= 2 bands",
+    "C02": "inputs: every canonical multigraph edge list of E(4,4) (quick) / E(4,5) (thorough) generated by TLC from Inputs.tla x rotating option grid (breakers x layerers x positioners x routers x size options x virtual-node output), plus seeded random multigraphs of 4-14 nodes (size modes incl. a fixed size with a map that lists nodes with size 0 x 0; routers incl. splines and none); distinct by canonical list x options; non-trivial = input has a cycle, a self-loop, a parallel/antiparallel pair, or a routed edge with bends",
+    "C03": "E(4,4)/E(4,5) x breakers x layerers x 5 positioners x heterogeneous heights x LayerSpacing {1,10}, plus random multigraphs and random connected DAGs up to 30 nodes, structured families (staircases, ladders, trees, grids, paths of different lengths between two nodes with pendant leaves) and 1500/15000 'stretched' inputs (a short path with a multi-edge tail beside a long path: edges between balanced nodes stretched over several layers); every router and no routing; non-trivial = some component has >= 2 bands",
+    "C04": "E(4,4)/E(4,5) x breakers x layerers x the four size-aware positioners x four width/height patterns (zero sizes, one very wide node, odd widths) x NodeSpacing {0,1,10}, plus random multigraphs up to 30 nodes, plus structured families (block staircases of 2-8/12 stages in both edge orders, ladders, caterpillars, binary trees, grids, complete bipartite graphs) x both layerers x the four positioners x size modes x NodeSpacing {0,2,10}, x output option x {straight, polyline, none}, LayerSpacing {1,4}; plus 3000/30000 small inputs under the network-simplex positioner with thoroughness 1-3; non-trivial = >= 2 components or two nodes in one band",
+    "C05": "E(4,4)/E(4,5) x all positioners (incl. the four forced B&K layouts) x {straight, polyline, ortho} x size patterns, plus random multigraphs up to 20 nodes, plus the spline router on 500 (thorough: 3000) lists of E(4,4) with several components or parallel/antiparallel pairs (uniform sizes; its process aborts are C01's known findings) and heterogeneous odd sizes; x output option; non-trivial = a reversed edge, a long edge or >= 2 components",
+    "C06": "E(4,4)/E(4,5) x size-aware positioners x {straight, polyline, ortho} x heterogeneous widths AND heights x virtual-node output, plus random multigraphs up to 20 nodes x NodeSpacing {0,2,7}, the spline router on multi-component / multi-edge lists, and 800/8000 inputs 'component with long edges followed by a component of two very large nodes'; non-trivial = a routed edge with more than two points",
+    "C14": "every cyclic list of E(4,4)/E(4,5) x DepthFirst and every acyclic list x {Greedy, DepthFirst}, x both layerers, 5-node cyclic lists of E(5,5) (5000 sampled in quick, all 5-node ones in thorough), plus random multigraphs of 5-9 and up to 30 nodes (DepthFirst also combined with the greedy breaker's node-choice option, in either option order; rotating through positioners, routers, output option); non-trivial = >= 1 reversed edge or a parallel/antiparallel pair",
+    "C16": "every connected list of E(4,4)/E(4,5) x {VAlign, PackRight} x width patterns x NodeSpacing {0,1,10} with helper nodes in the output, plus random connected multigraphs up to 30 nodes x {polyline, straight, ortho, none}, plus 1200/12000 connected inputs with the spline router (positive odd sizes); non-trivial = >= 2 bands and a band with >= 2 nodes",
 }
 
 ASSUME = [
